@@ -359,6 +359,10 @@ func checkC11(c *Check) {
 		c.Anchor("flamego.httpMethods")
 	}
 
+	// ---- R8 multi-method registration keeps one shortcut entry per method
+	c.Rule("R8", "shared with C10 (R1, R2, R3)", "Any/Routes register each method separately, also in the shortcut table: entries are keyed by the method whose tree holds the leaf and evicted per method", 6)
+	c.Share("C10", []string{"R1", "R2", "R3"}, 6)
+
 	// ---- R5 AutoHead
 	c.Rule("R5", "E5 + E1", "autoHead is read only by Get; the extra Head registration is guarded by it and uses the same path and handlers", 2)
 	if fAH := p.Field("flamego", "router", "autoHead"); fAH != nil {
